@@ -280,6 +280,40 @@ def _axes_task(task, p):
         p.sample(sub, {"lattice": [str(d) for d in lattice], "subset_sizes": "1..4 (5)", "orders": ["ascending", "descending", "rotated"]})
 
 
+def unit_sequences(ctx):
+    """Axes that hold the SAME integers in different datetime64 units, read one after the other in one process
+    (every ordered pair of units, three payloads): each axis gets the dekads of its own instants."""
+    import pandas as pd
+    import xarray as xr
+    Dekad = Dk()
+    sub = "unit_sequences"
+    payloads = [np.array([946684800, 1057017600, 1293235200, 920160000], dtype="int64"),
+                np.array([86400 * 9, 86400 * 10, 86400 * 40, 86400 * 364], dtype="int64"),
+                np.array([1, 864000, 1728000, 2678400, 31536000], dtype="int64")]
+    units = ("s", "ms", "us", "ns")
+    n = 0
+    for pay in payloads:
+        for u1 in units:
+            for u2 in units:
+                for u in (u1, u2):
+                    tt = pay.astype(f"datetime64[{u}]")
+                    x = xr.DataArray(np.zeros(len(tt), "int8"), dims="time", coords={"time": tt})
+                    acc = x.time.dekad
+                    pyd = [pd.Timestamp(v).to_pydatetime() for v in tt]
+                    scal = [Dekad(d) for d in pyd]
+                    n += 1
+                    for a, exp in (("idx", [d.idx for d in scal]), ("raw", [d.raw for d in scal]), ("label", [str(d) for d in scal]), ("yidx", [d.yidx for d in scal]),
+                                   ("ndays", [d.ndays for d in scal])):
+                        got = list(getattr(acc, a).values)
+                        if got != exp:
+                            ctx.violation(sub, {"attr": a, "units": [u1, u2], "unit": u, "payload": pay.tolist()}, {"kind": "unitseq"},
+                                          f".dekad.{a} on the datetime64[{u}] axis {[str(v) for v in tt]} (read in the sequence [{u1}] then [{u2}] of the same integers) "
+                                          f"-> {got}, scalar class gives {exp}")
+                            break
+    ctx.count(sub, evaluations=n, states=n, transitions=n, traces_validated_against_impl=n, nontrivial=n)
+    ctx.sample(sub, {"units": list(units), "payloads": [p_.tolist() for p_ in payloads], "sequences": "every ordered pair of units"})
+
+
 def run(ctx):
     tasks = [(y, min(10000, y + 50)) for y in range(1, 10000, 50)]
     ctx.pmap(_year_task, tasks)
@@ -287,6 +321,7 @@ def run(ctx):
     ctx.note("dekads", "000101d1..999912d3")
     ctx.pmap(_axes_task, [(k, ctx.thorough()) for k in range(5 if ctx.thorough() else 4, 0, -1)])
     accessor(ctx)
+    unit_sequences(ctx)
 
 
 def replay(sub, case, p):
@@ -296,6 +331,8 @@ def replay(sub, case, p):
         else:
             y = case["raw"] // 36
         _year_task((y, y + 1), p)
+    elif case.get("kind") == "unitseq":
+        unit_sequences(p)
     elif case.get("kind") == "axes":
         _axes_task((case["k"], False), p)
     else:
